@@ -57,6 +57,20 @@ func (te *TypeEnv) TypeID(t types.Type) int {
 	id := len(te.typeIDs) + 1
 	te.typeIDs[k] = id
 	te.typeByID[id] = t
+	// plain_tag(id): values of this dynamic type are printed by fmt's verbs through reflection -
+	// the type has none of the methods fmt looks for first (String, Error, Format, GoString)
+	plain := true
+	for _, mt := range []types.Type{t, types.NewPointer(t)} {
+		ms := types.NewMethodSet(mt)
+		for i := 0; i < ms.Len(); i++ {
+			switch ms.At(i).Obj().Name() {
+			case "String", "Error", "Format", "GoString":
+				plain = false
+			}
+		}
+	}
+	te.pre.Fun("plain_tag", "(Int) Bool")
+	te.pre.Axiom(fmt.Sprintf("(= (plain_tag %d) %v)", id, plain))
 	return id
 }
 
